@@ -1075,7 +1075,10 @@ class Gen:
         for ax in range(nd):
             n = v.shape[ax]
             if ax in adv_axes:
-                if n_arrays > 0 and self.boolean(1, 4):
+                later = [a for a in adv_axes if a > ax]
+                # (a scalar among the advanced indices, before or after the
+                # first index array; at least one array remains)
+                if (n_arrays > 0 or later) and self.boolean(1, 4):
                     items.append(["int", self.integers(-n, n - 1)])
                     continue
                 # shape broadcastable to bshape
